@@ -301,6 +301,24 @@ theorem flipComponent_weight (H : Ham) (fr : SkOp → Bool) (c : Config) (r : Na
     configWeightProd H (flipComponent (skeleton c.slots) r c).slots = configWeightProd H c.slots :=
   clusterMove_weight H (Qmc.flipComponent_clusterMove fr c r hshape hn hfree) hsym hconst
 
+/-- (iv) with the tag rule applied (`flipComponentT` = component flip, then every tag `Diagonal` iff inputs =
+outputs — what the code produces on strings with canonical tags): still a cluster move, tags canonical -/
+theorem flipComponentT_clusterMove (fr : SkOp → Bool) (c : Config) (r : Nat) (hshape : ShapeOk c)
+    (hn : NodupVars c.slots) (hfree : ComponentFree fr c.slots r) :
+    ClusterMove fr c (flipComponentT (skeleton c.slots) r c) ∧
+    TagCanon (flipComponentT (skeleton c.slots) r c).slots :=
+  ⟨Qmc.flipComponentT_clusterMove fr c r hshape hn hfree, flipComponentT_tagCanon _ r c⟩
+
+/-- (iv) … an involution on strings with canonical tags -/
+theorem flipComponentT_involutive (sk : Skel) (r : Nat) (c : Config) (h : ShapedSlots c.slots)
+    (ht : TagCanon c.slots) : flipComponentT sk r (flipComponentT sk r c) = c :=
+  Qmc.flipComponentT_involutive sk r c h ht
+
+/-- (iv) … and two of them commute -/
+theorem flipComponentT_comm (sk : Skel) (r1 r2 : Nat) (c : Config) :
+    flipComponentT sk r1 (flipComponentT sk r2 c) = flipComponentT sk r2 (flipComponentT sk r1 c) :=
+  Qmc.flipComponentT_comm sk r1 r2 c
+
 /-- a cluster move keeps structural validity (so the theorems above apply to its result again) -/
 theorem clusterMove_shapeOk (h : ClusterMove fr b a) (hb : ShapeOk b) (hn : NodupVars b.slots) :
     ShapeOk a ∧ NodupVars a.slots := h.shapeOk hb hn
@@ -357,6 +375,9 @@ set_option maxRecDepth 8000 in
 /-- the move `exB → exA` is the flip of the component labelled 1 (legs 1–6, 8, 9), up to the tag rule -/
 example : (flipComponent (skeleton exB.slots) 1 exB).state = exA.state ∧
     canonSlots (flipComponent (skeleton exB.slots) 1 exB).slots = exA.slots := by decide
+set_option maxRecDepth 8000 in
+/-- … and with the tag rule it is `exA` exactly -/
+example : flipComponentT (skeleton exB.slots) 1 exB = exA := by decide
 set_option maxRecDepth 8000 in
 /-- flipping the other component (legs 0 and 7: the σx pair through the boundary) changes `state[0]` -/
 example : (flipComponent (skeleton exB.slots) 0 exB).state = [true, false, true] := by decide
